@@ -599,6 +599,15 @@ func relatedOp(r *rng, ops []opSpec, cur *jv, c genCfg) (opSpec, bool) {
 		}
 		tok := r.pick([]string{"n0", "n1", "y", "z", "0", "1", "-", encTok(r.pick(namePool))})
 		return opSpec{op: "add", path: parent + "/" + tok, value: val()}, true
+	case k < 5 && e.from != nil && strings.HasPrefix(*e.from, "/") && strings.HasPrefix(e.path, "/") && r.chance(1, 2):
+		// an earlier copy/move named two places: move one of them BELOW the other (if the two were one shared node,
+		// this would make it its own descendant)
+		tok := r.pick([]string{"k", "n0", "0", "-"})
+		f, t := *e.from, e.path
+		if r.chance(1, 2) {
+			f, t = t, f
+		}
+		return opSpec{op: "move", path: t + "/" + tok, from: &f}, true
 	case k < 5:
 		// the same pointer once more
 		switch r.n(4) {
